@@ -46,7 +46,7 @@ def sugarCall (id op int : Token) : Option (List Token) :=
 
 /-- the sugar: one pass from left to right; every occurrence of `ID + INT` / `ID - INT` is replaced
     by the call, and the pass continues *behind* the occurrence.  (This is the same as rewriting the
-    leftmost occurrence again and again, `desugar_eq_iterate` in Props/C04Sugar.lean: a call neither
+    leftmost occurrence again and again, `C04_desugar_eq_iterate` in Props/C04Sugar.lean: a call neither
     contains an occurrence nor completes one with its neighbours — in `a + 1 + 2` only `a + 1` is
     sugar, the result `RUN __INC__ WITH a , 1 END + 2` is left alone.) -/
 def desugar : List Token → List Token
